@@ -15,7 +15,8 @@ namespace
     struct Tick { long t; std::string v; bool operator==(const Tick &o) const { return t == o.t && v == o.v; } };
     struct Run
     {
-        unsigned throw_mask[4]{0, 0, 0, 0};      // per thrower id: cycles in which it throws
+        unsigned throw_mask[4]{0, 0, 0, 0};
+        unsigned input_mask2{0};                 // second source (programs y / z)      // per thrower id: cycles in which it throws
         unsigned input_mask{0};                  // cycles in which the source ticks
         int cycles{0};
         std::map<int, std::vector<Tick>> probes; // probe id -> ticks
@@ -42,6 +43,32 @@ namespace
             if ((g->input_mask >> c) & 1u) out.set(Int{10 + c});
             if (c + 1 < g->cycles) sched.schedule(MIN_TD);
         }
+    };
+    struct Src2
+    {
+        static constexpr auto name = "c15_src2";
+        static constexpr bool schedule_on_start = true;
+        static void eval(NodeScheduler sched, DateTime now, Out<TS<Int>> out)
+        {
+            const long c = rel(now);
+            if ((g->input_mask2 >> c) & 1u) out.set(Int{100 + c});
+            if (c + 1 < g->cycles) sched.schedule(MIN_TD);
+        }
+    };
+    // a healthy, self-scheduling node inside the wrapped sub-graph: every tick of y is re-emitted two steps later (own wake-up)
+    struct Delay2
+    {
+        static constexpr auto name = "c15_delay2";
+        static void eval(In<"y", TS<Int>> y, NodeScheduler sched, State<Int> pending, Out<TS<Int>> out)
+        {
+            if (y.modified()) { pending.set(y.value()); sched.schedule(MIN_TD * 2); }
+            else out.set(pending.get());
+        }
+    };
+    struct ThrowSink
+    {
+        static constexpr auto name = "c15_throw_sink";
+        static void eval(In<"x", TS<Int>> x, DateTime now) { const long c = rel(now); (void)x; if ((g->throw_mask[0] >> c) & 1u) throw std::runtime_error(msg_of(0, c)); }
     };
     struct AddOne { static constexpr auto name = "c15_add_one"; static void eval(In<"ts", TS<Int>> ts, Out<TS<Int>> out) { out.set(ts.value() + 1); } };
     struct Thrower
@@ -143,6 +170,9 @@ namespace
     struct Child3 { static constexpr auto name = "c15_child3"; static Port<TS<Int>> compose(Wiring &w, Port<TS<Int>> x) { return wire<AddOne>(w, wire<Thrower>(w, wire<AddOne>(w, x), Int{0})); } };
     struct MapChild { static constexpr auto name = "c15_map_child"; static Port<TS<Int>> compose(Wiring &w, NamedPort<"key", TS<Int>> key, Port<TS<Int>> ts) { return wire<KeyThrower>(w, key, wire<AddOne>(w, ts)); } };
 
+    // a wrapped sub-graph with two INDEPENDENT parts: a timer node fed by y and a failing sink fed by x (timer ranked before / after the sink)
+    struct ChildDelayFirst { static constexpr auto name = "c15_child_delay_first"; static Port<TS<Int>> compose(Wiring &w, Port<TS<Int>> x, Port<TS<Int>> y) { auto d = wire<Delay2>(w, y); wire<ThrowSink>(w, x); return d; } };
+    struct ChildSinkFirst { static constexpr auto name = "c15_child_sink_first"; static Port<TS<Int>> compose(Wiring &w, Port<TS<Int>> x, Port<TS<Int>> y) { wire<ThrowSink>(w, x); return wire<Delay2>(w, y); } };
     // a NON-capturing map_ inside a try_except_ sub-graph: a child's exception escapes the map and is captured by the enclosing try_except_
     struct ChildMap { static constexpr auto name = "c15_child_map"; static Port<DictI> compose(Wiring &w, Port<DictI> d) { return wire<stdlib::map_>(w, fn<MapChild>(), d).template as<DictI>(); } };
     using TryDictResult = UnNamedTSB<Field<"exception", TS<NodeError>>, Field<"out", DictI>>;
@@ -175,6 +205,14 @@ namespace
                 auto d = wire<DictWriter>(w);
                 wire<TryDictProbe>(w, try_except_<ChildMap>(w, d).template as<TryDictResult>());
                 wire<DictProbe>(w, d, Int{300});
+            }
+            else if (program == 'y' || program == 'z')
+            {
+                auto x = wire<Src>(w);
+                auto y = wire<Src2>(w);
+                Port<TryIntResult> r = program == 'y' ? try_except_<ChildDelayFirst>(w, x, y).template as<TryIntResult>() : try_except_<ChildSinkFirst>(w, x, y).template as<TryIntResult>();
+                wire<TryProbe>(w, r);
+                wire<IntProbe>(w, wire<AddOne>(w, x), Int{1});
             }
             else if (program == 'm')
             {
@@ -232,6 +270,7 @@ namespace
         cfg.cycles = 5;
         cfg.input_mask = static_cast<unsigned>(std::stoul(parts.at(1)));
         { auto ms = split(parts.at(2), ','); for (std::size_t i = 0; i < ms.size() && i < 4; ++i) cfg.throw_mask[i] = static_cast<unsigned>(std::stoul(ms[i])); }
+        if (parts.size() > 3) cfg.input_mask2 = static_cast<unsigned>(std::stoul(parts[3]));
         cfg.script = {"s1=5,s2=6", "s1=7", "s2=8,s3=9", "s1=10,s3=11", "s2=12"};
         if (program == 'x' && cfg.input_mask == 2) cfg.script = {"s1=5,s2=6", "s1=7,s2=1", "s3=9", "s3=11,s2=4", "s1=2,s2=12"};
         if (program == 'x' && cfg.input_mask == 3) cfg.script = {"s1=5", "s1=7", "s2=8", "s1=10", "s2=12,s3=1"};
@@ -269,6 +308,22 @@ namespace
                 if (!out.violation && g2 != r2) out.violation = "key " + std::to_string(k) + ": outside the throwing cycles the map inside try_except_ produced" + show(g2) + " but the fault-free run gives" + show(r2) + " (the failing sub-graph must evaluate normally again)";
             }
             out.nontrivial = !throwing.empty();
+            return out;
+        }
+        if (program == 'y' || program == 'z')
+        {
+            // the failing sink evaluates exactly when x ticks; the timer node is independent of it: outside the throwing cycles its
+            // stream must be the fault-free one (a pending wake-up of a healthy node survives a failure of its neighbour)
+            std::vector<Tick> want_err; std::set<long> throwing;
+            for (long c = 0; c < cfg.cycles; ++c) if (((cfg.input_mask >> c) & 1u) && ((cfg.throw_mask[0] >> c) & 1u)) { want_err.push_back({c, msg_of(0, c)}); throwing.insert(c); }
+            expect_equal(1, "the stream of a node outside the wrapped sub-graph");
+            if (!out.violation && stream(got, 20) != want_err) out.violation = "error ticks are" + show(stream(got, 20)) + " but the sink throws exactly in" + show(want_err);
+            std::vector<Tick> g2, r2;
+            for (auto &t : stream(got, 21)) if (!throwing.count(t.t)) g2.push_back(t);
+            for (auto &t : stream(ref, 21)) if (!throwing.count(t.t)) r2.push_back(t);
+            if (!out.violation && g2 != r2)
+                out.violation = "the healthy timer node inside the wrapped sub-graph produced" + show(g2) + " outside the throwing cycles, the fault-free run gives" + show(r2) + " (its wake-ups must survive a neighbour's failure)";
+            out.nontrivial = !throwing.empty() && !r2.empty();
             return out;
         }
         if (program == 'm')
@@ -336,6 +391,33 @@ void verif_enumerate(verif::Ctx &ctx)
                 }
                 else if (ctx.evaluations % 997 == 1) ctx.sample("cases", desc);
             }
+    // two independent parts inside one try_except_: every tick pattern of x and y, every subset of x's ticks throwing. Program z (timer ranked
+    // AFTER the failing sink): only throw cycles in which the timer node is not due itself (neither a y tick nor its wake-up two steps later) -
+    // an evaluation lost IN the failing cycle is that cycle's failure, not a later one
+    for (char program : std::string{"yz"})
+        for (unsigned im = 1; im < (1u << T); ++im)
+            for (unsigned im2 = 1; im2 < (1u << T); ++im2)
+                for (unsigned tm = im; ; tm = (tm - 1) & im)
+                {
+                    const unsigned due = im2 | (im2 << 2);
+                    if (tm != 0 && !(program == 'z' && (tm & due)) && ctx.next_is_mine())
+                    {
+                        const std::string desc = std::string(1, program) + "|" + std::to_string(im) + "|" + std::to_string(tm) + "|" + std::to_string(im2);
+                        ++ctx.evaluations; ++ctx.traces;
+                        Outcome o = run_desc(desc);
+                        ctx.transitions += o.ticks;
+                        ctx.state(o.sig);
+                        if (o.nontrivial) ctx.nontriv(desc);
+                        ctx.count(std::string{"cases_"} + program);
+                        if (o.violation)
+                        {
+                            Outcome o2 = run_desc(desc);
+                            if (!o2.violation || *o2.violation != *o.violation) throw verif::HarnessError("case not reproducible: " + desc);
+                            ctx.violation(desc, *o.violation, std::string(1, program) + ": " + o.violation->substr(0, 50));
+                        }
+                    }
+                    if (tm == 0) break;
+                }
     // non-capturing map_ inside try_except_: 3 input scripts x throw sets in which at most one key throws per cycle, never in a cycle that creates a key
     for (int script = 1; script <= 3; ++script)
         for (unsigned m1 = 0; m1 < 32; ++m1) for (unsigned m2 = 0; m2 < 32; ++m2) for (unsigned m3 = 0; m3 < 32; ++m3)
